@@ -58,6 +58,7 @@ func init() {
 		Trusted: trust("A-SORT", "A-PS")})
 	add(&propSpec{ID: "C18", Level: "proof", Funcs: append([]string{"bexpr.Evaluator.Evaluate", "bexpr.getValue"}, optFuncs...),
 		Trusted: trust("A-PS", "A-HOOK")})
+	add(&propSpec{ID: "C17", Level: "proof", Funcs: []string{"bexpr.Filter.Execute"}, Trusted: trust("A-PS")})
 	add(&propSpec{ID: "C09", Level: "proof", Funcs: evalChain,
 		Trusted: trust("A-JSON", "A-REGEXP", "A-STRINGS", "A-PS", "A-HOOK", "A-SORT", "A-STACK")})
 }
